@@ -7,6 +7,7 @@
 #define __local static
 #define __constant const
 #define __private
+#define restrict __restrict__
 #define CLK_LOCAL_MEM_FENCE 1
 #define CLK_GLOBAL_MEM_FENCE 2
 static inline unsigned gpusim_pick(const gpusim_dim3 &d, int i) { return i == 0 ? d.x : (i == 1 ? d.y : d.z); }
